@@ -297,6 +297,9 @@ class SymNode(metaclass=NodeMeta):
         b = wd.c.opts.get("if_depth_bound")
         if b is not None and self.level >= b:
             a = [o for o in a if o != "If"]        # stated bound on the nesting depth of If trees
+        for o_, b_ in (wd.c.opts.get("op_depth_bound") or {}).items():
+            if self.level >= b_:
+                a = [o for o in a if o != o_]      # stated bound on the nesting depth of these operations
         return a
 
     def _op_is(self, name):
@@ -1115,6 +1118,10 @@ def mk(op, *args):
         c.assume(r.den == t)
     c.assume(z3.Implies(r.zsym, z3.Or(*[a.zsym for a in args])))
     r.ghost_from = (op, tuple(args))
+    if c.opts.get("result_levels"):
+        # opt-in: a constructed node sits one level above its shallowest operand, so that the stated nesting bounds (if_depth_bound,
+        # op_depth_bound) also bound what a recursive function sees in the expressions it builds itself
+        r.level = max(0, min(a.root().level for a in args) - 1)
     return r
 
 
